@@ -247,7 +247,7 @@ class LP:
         self._fix()
         return LP(self.ctx, {m + d: c for m, c in self.t.items()}, self.den)
 
-    def reduce(self):
+    def reduce(self, skip=()):
         """Value-preserving rewriting of positive powers v^e (e >= 2) by the relations v^2 -> R_v."""
         ctx = self.ctx
         p = self
@@ -255,6 +255,8 @@ class LP:
         while changed:
             changed = False
             for i, R in ctx.rel.items():
+                if i in skip:
+                    continue
                 if p.max_exp(i) < 2:
                     continue
                 changed = True
@@ -412,7 +414,7 @@ def prepare_trig(ctx, roots, extra_rf=()):
             den = den * c.denominator // gcd(den, c.denominator)
         for c in cs:
             num = gcd(num, int(c * den))
-        c0 = Fraction(num, den)
+        c0 = Fraction(num, den) / getattr(ctx, "trig_unit_div", 1)
         _new_trig(ctx, key, prim, c0)
 
 
@@ -420,6 +422,22 @@ def _new_trig(ctx, key, prim, c0):
     nm = "%s*(%s)" % (c0, str(prim)) if c0 != 1 else "(%s)" % str(prim)
     # special base: a single atan2 atom with c0 == 1  ->  sin = y/r, cos = x/r
     only = prim.vars_used()
+    if c0 == Fraction(1, 2) and len(only) == 1 and prim.single_term() and prim.const_value() is None:
+        i = next(iter(only))
+        if i in ctx.atan2s and prim.max_exp(i) == 1:
+            # half of an atan2 angle t in (-pi, pi):  C = cos(t/2) >= 0, C^2 = (r + x)/(2r), sin(t/2) = y C/(r + x)
+            y, x = ctx.atan2s[i]
+            r = sqrt_rf(ctx, y * y + x * x, None)
+            if r.d is None and x.d is None and y.d is None:
+                ci = ctx.atom(("cos", key), "Ch%d" % len(ctx.names))
+                ctx.nonneg.add(ci)
+                rinv = r.inv(ctx)
+                half = ((r + x) * rinv).n.scale(Fraction(1, 2))
+                ctx.add_relation(ci, half)
+                Crf = RF(ctx.var_lp(ci))
+                ctx.trig[key] = dict(c0=c0, S=None, C=ci, base=prim, sinrf=y * Crf * (r + x).inv(ctx), cosrf=Crf)
+                ctx.assumptions.append("half-angle of atan2: cos(t/2) >= 0, cos^2(t/2) = (1 + cos t)/2, tan(t/2) = sin t/(1 + cos t), t != pi")
+                return
     if c0 == 1 and len(only) == 1 and prim.single_term() and prim.const_value() is None:
         i = next(iter(only))
         if i in ctx.atan2s and prim.max_exp(i) == 1:
@@ -434,6 +452,10 @@ def _new_trig(ctx, key, prim, c0):
     ci = ctx.atom(("cos", key), "C%d" % len(ctx.names))
     one = ctx.const_lp(1)
     ctx.add_relation(si, one - ctx.var_lp(ci, 2))
+    if getattr(ctx, "sin_nonneg", False):
+        ctx.nonneg.add(si)
+    if getattr(ctx, "cos_nonneg", False):
+        ctx.nonneg.add(ci)
     ctx.trig[key] = dict(c0=c0, S=si, C=ci, base=prim, sinrf=RF(ctx.var_lp(si)), cosrf=RF(ctx.var_lp(ci)))
     ctx.assumptions.append("sin^2+cos^2=1 for angle " + nm)
 
@@ -554,8 +576,23 @@ def _call_rf(ctx, x, memo, pending):
         return s * co.inv(ctx)
     if fn == "atan2":
         y, xx = a, memo[x.args[2].id]
+        if getattr(ctx, "atan2_of_sincos", False):
+            # atan2(k sin b, k cos b) = b  for k > 0 and b in (-pi, pi]   (contract precondition of the caller)
+            for info in list(ctx.trig.values()):
+                for k, (sk, ck) in list(info.get("mult", {}).items()):
+                    if k == 0:
+                        continue
+                    if rf_equal(y * ck, xx * sk):
+                        ctx.assumptions.append("atan2(k sin b, k cos b) = b for k > 0, b in (-pi, pi]")
+                        return RF(info["base"].scale(info["c0"] * k))
         i = ctx.atom(("node", x.id), "at%d" % x.id)
         ctx.atan2s[i] = (y, xx)
+        if y.d is None and y.n.single_term():
+            (m_, c_), = y.n.t.items()
+            vs = y.n.vars_used()
+            if c_ > 0 and all(v in ctx.nonneg and y.n.max_exp(v) == 1 for v in vs):
+                ctx.nonneg.add(i)      # atan2(y, x) in [0, pi] for y >= 0
+                ctx.assumptions.append("atan2(y,x) >= 0 for y >= 0")
         return RF(ctx.var_lp(i))
     if fn == "exp":
         if x.args[1].op == "call" and x.args[1].args[0] == "log":
@@ -574,6 +611,8 @@ def _call_rf(ctx, x, memo, pending):
             i = ctx.atom(("exp", key), "E%d" % len(ctx.names))
             info = ctx.expo[key] = dict(c0=abs(c), E=i)
             ctx.nonzero.setdefault(i, "exp > 0")
+            ctx.nonneg.add(i)
+            info["base"] = prim
             ctx.assumptions.append("exp(k x) = exp(x)^k, exp > 0")
         k = c / info["c0"]
         if k.denominator != 1:
@@ -583,6 +622,16 @@ def _call_rf(ctx, x, memo, pending):
         if x.args[1].op == "call" and x.args[1].args[0] == "exp":
             ctx.assumptions.append("log(exp x) = x")
             return memo[x.args[1].args[1].id]
+        if a.d is None and a.n.single_term():
+            # log(E^k) = k * c0 * base  for an exp atom E = exp(c0 * base)
+            (m_, c_), = a.n.t.items()
+            vs = a.n.vars_used()
+            if len(vs) == 1 and Fraction(c_, a.n.den) == 1:
+                v = next(iter(vs))
+                for info in ctx.expo.values():
+                    if info["E"] == v:
+                        ctx.assumptions.append("log(exp x) = x")
+                        return RF(info["base"].scale(info["c0"] * a.n.max_exp(v)))
         i = ctx.atom(("node", x.id), "log%d" % x.id)
         ctx.logs = getattr(ctx, "logs", {})
         ctx.logs[i] = a
@@ -611,6 +660,11 @@ def sqrt_rf(ctx, a, node):
         ctx.sqrt_args[i] = a
         ctx.nonneg.add(i)
         return RF(ctx.var_lp(i))
+    trigvars = set(i for i, k in ctx.kinds.items() if k in ("sin", "cos"))
+    for cand in (a.n, a.n.reduce(skip=trigvars)):
+        rt = _monomial_root(ctx, cand)
+        if rt is not None:
+            return RF(rt)
     an = a.n.reduce()
     cv = an.const_value()
     if cv is not None and cv >= 0:
